@@ -100,6 +100,12 @@ def gen(prop, stream, tier, avoid):
                 f["errno"] = fl.pick([13, 28, 2])  # EACCES, ENOSPC, ENOENT
             op["faults"].append(f)
         ops.append(op)
+        if k == "export" and op["faults"] and fl.chance(0.6):
+            # motif: the same export is retried after the failure, then that path is imported
+            retry = json.loads(json.dumps(op))
+            retry["faults"] = []
+            ops.append(retry)
+            ops.append({"op": "import", "which": "last", "faults": []})
     return {"knobs": knobs, "objects": objs, "ops": ops}
 
 
@@ -175,6 +181,7 @@ class World:
         self.live = []
         self.restarts = 0
         self.failed_paths = set()
+        self.last_export = None
         self.boot()
 
     def boot(self):
@@ -531,6 +538,7 @@ def _do_export(world, ctx, op, idx, ack_then_boundary):
             target_obj.add(world.live[i])
     else:
         target_obj = world.live[sel[0]]
+    world.last_export = targets[0]
     world.disk.arm(op.get("faults", []))
     outcome = "returned"
     crashed = False
@@ -624,7 +632,8 @@ def _do_import(world, ctx, op, idx, ack_then_boundary):
     if not world.order:
         ctx.ops_skipped += 1
         return
-    p = world.order[op["which"] % len(world.order)]
+    p = world.last_export if (op["which"] == "last" and world.last_export in world.paths) else \
+        world.order[(0 if op["which"] == "last" else op["which"]) % len(world.order)]
     m = world.paths.get(p)
     if m is None:
         ctx.ops_skipped += 1
